@@ -286,6 +286,11 @@ func TestC18(t *testing.T) {
 					}
 				}
 			}
+			// ... and through a symbolic link followed by "..", which the operating system resolves
+			// by following the link first (so that lexical cleaning names another place)
+			if os.MkdirAll(filepath.Join(dir, "real2", "inner"), 0o755) == nil && os.Symlink(filepath.Join("real2", "inner"), filepath.Join(dir, "hop")) == nil {
+				spellings = append(spellings, filepath.Dir(root)+"/hop/../../"+base)
+			}
 			spelled := spellings[i%len(spellings)]
 			var l3 ipld.Link
 			var err3 error
